@@ -43,8 +43,10 @@ SetVarNotifyRule(s, e) ==
 \* C12: cumulative number of host calls against the number of executed calls of the reference run
 ExtCountRule(s, e, refcnt, mode) ==
   LET tot(f) == (IF f \in DOMAIN s.calls THEN s.calls[f] ELSE 0) + (IF f \in DOMAIN e.ext THEN e.ext[f] ELSE 0) IN
-  IF mode = "unsafe" /\ \E f \in DOMAIN refcnt : tot(f) # refcnt[f] THEN "Ext.exactly_once"
+  IF mode = "unsafe" /\ \E i \in Exts(e) : ~e.cbs[i].seen THEN "Ext.before_preceding_line"
+  ELSE IF mode = "unsafe" /\ \E f \in DOMAIN refcnt : tot(f) # refcnt[f] THEN "Ext.exactly_once"
   ELSE IF mode = "safe" /\ \E f \in DOMAIN refcnt : tot(f) < refcnt[f] THEN "Ext.at_least_once"
+  ELSE IF mode = "never" /\ \E f \in DOMAIN e.ext : e.ext[f] > 0 THEN "Ext.called_in_string"
   ELSE ""
 
 \* C13: what the handler received in this call = the messages the reference run raised in it
